@@ -127,8 +127,11 @@ def c03(tier, seed):
 
 def c12(tier, seed):
     t = 'quick' if tier == 'quick' else 'thorough'
-    return dict(stages=[disp_stage('c12_' + t)],
-                rule='all middleware stacks of length 0..%s over {pass, short, rewriteReq, rewriteResp} x 9 error-handler '
+    hist = Stage('history', mc=('HistoryMC', 'History_%s.cfg' % t), emit=('HistoryMC', 'History_%s_emit.cfg' % t),
+                 driver='history', trace=('DispatcherTrace', 'DispatcherTrace.cfg'), nontrivial=lambda tr: len(tr['ev']) >= 3)
+    return dict(stages=[disp_stage('c12_' + t), hist],
+                rule='(plus: all histories over a 12-class request corpus on ONE dispatcher with middlewares and generic + per-code '
+                     'handlers - the chain and the handler table are the same for every request) all middleware stacks of length 0..%s over {pass, short, rewriteReq, rewriteResp} x 9 error-handler '
                      'tables x 12 request kinds x {sync, async}; non-trivial = a middleware or handler event was recorded'
                      % ('2 (+ length 3 on a reduced product)' if tier == 'quick' else '3'),
                 assumptions=ASSUME_DISP, exhaustive=True)
